@@ -26,12 +26,12 @@ C11_SHAPES_SLOW = ['c11_prec_not_eq', 'c11_prec_not_not_eq']
 C11_GATING = ['c11_gating_' + d + '_bounded' for d in ('define', 'undef', 'include', 'pragma', 'unknown', 'ifdef', 'if', 'elif', 'else', 'endif')]
 
 ALL_V_UNITS = ['cond_chain', 'cond_file', 'cond_parser', 'bindings', 'lexer_digits', 'lexer_float', 'token_stream', 'source_manager', 'layout',
-               'hlsl_bindings', 'hlsl_analyse', 'hlsl_expr', 'hlsl_literal', 'msl_literal', 'evaluator', 'fmt_paren', 'unlex']
+               'hlsl_bindings', 'hlsl_analyse', 'hlsl_expr', 'hlsl_exprs', 'hlsl_literal', 'msl_literal', 'evaluator', 'fmt_paren', 'unlex']
 
 PROPS = {
     'C01': {
         'title': 'HLSL export preserves the meaning of every accepted program',
-        'v_units': ['hlsl_expr', 'hlsl_literal', 'fmt_paren'],
+        'v_units': ['hlsl_expr', 'hlsl_exprs', 'hlsl_literal', 'fmt_paren'],
         'k_groups': [],
         'design_ref': 'DESIGN.md Part I, I.4 (C01)',
     },
